@@ -74,6 +74,9 @@ DEFAULT_PROFILE: Dict[str, Any] = {
     'max_bases': 2,           # bases per class
     'root_clash': 0.0,        # probability that a sub-module (and sometimes a class) is named like the single root package
     'alias_pool': False,      # module aliases are drawn from a small pool so that different scopes bind the same alias name differently
+    'imports_last': False,    # every module defines first and imports at the bottom (so a module that is read while half built
+                              # - import cycles - has already defined everything it defines itself)
+    'back_edge_bottom': False,  # cyclic worlds: the imports that close a cycle sit at the bottom of the module, after every definition
     'var_ann': 0.0,           # probability that a variable is annotated with a class visible in its scope
     'attr_pool': 0.0,         # probability per class that its attributes come from a small name pool, as class variable,
                               # annotated declaration or instance variable set in __init__ (so that overriding chains arise)
@@ -244,7 +247,18 @@ class _Gen:
                 st['body'].append(vst)
                 self.defs[vid] = {'kind': 'cvar', 'name': an, 'module': mod, 'outer': cid}
             self.defs[cid]['members'][an] = vid
-            self.cns[cid][an] = ['d', vid]
+            if form == 'cvar':
+                self.cns[cid][an] = ['d', vid]     # 'decl' (annotation only) and 'ivar' (set in __init__) bind nothing in the class body
+        if p.get('alias_pool') and rng.chance(0.35):
+            # an alias in the class body; its name may also be bound (differently) at module level
+            cands_a = [(n, b) for n, b in scope_ns.items() if b[0] == 'd' and self.defs[b[1]]['kind'] == 'class'
+                       and n not in self.cns[cid]]
+            if cands_a:
+                n, b = rng.choice(sorted(cands_a))
+                an = rng.choice(['ta', 'tb'] + self.ALIAS_POOL)
+                if an not in self.cns[cid]:
+                    self.cns[cid][an] = list(b)
+                    st['body'].append({'k': 'alias', 'name': an, 'target': {'expr': n, 'id': b[1]}})
         if depth == 0 and rng.chance(p['nested']):
             # optionally bind a module alias inside the class body first; the nested class may then use it for its base
             if rng.chance(max(p['class_imports'], 0.0) * 2) and self.done:
@@ -257,6 +271,8 @@ class _Gen:
                     al = f'cal{self.alias_n}'
                     if p.get('alias_pool'):
                         al = rng.choice(self.ALIAS_POOL)
+                        if al in self.cns[cid]:
+                            al = f'cal{self.alias_n}'
                     self.cns[cid][al] = ['m', t]
                     self.cns_vias.setdefault(cid, {})[al] = t
                     st['body'].append({'k': 'import', 'mod': t, 'as': al, 'guard': None})
@@ -272,7 +288,7 @@ class _Gen:
             self.defs[fid_] = {'kind': 'field', 'name': fname, 'module': mod, 'outer': cid}
         rng.shuffle(st['body'])
         # bindings made by imports in the class body come first (a nested class may use them)
-        st['body'].sort(key=lambda x: 0 if x['k'] in ('import', 'from') else 1)
+        st['body'].sort(key=lambda x: 0 if x['k'] in ('import', 'from', 'alias') else 1)
         return st
 
     def order_bases(self, rng: Rng, chosen: List[Dict[str, Any]]) -> List[Dict[str, Any]]:
@@ -356,10 +372,12 @@ class _Gen:
         if outer is not None:
             deco = rng.weighted([(None, 6), ('classmethod', 1), ('staticmethod', 1), ('property', 1)])
         nodoc = bool(self.p['method_pool'] and outer is not None and rng.chance(0.4))
-        st = {'k': 'func', 'id': fid_, 'name': name, 'deco': deco, 'ann': {}, 'ret': None, 'nodoc': nodoc}
+        # an explicitly empty docstring: Python's lookup stops there (``__doc__ == ''``), the member counts as undocumented
+        emptydoc = bool(self.p['method_pool'] and outer is not None and not nodoc and rng.chance(0.2))
+        st = {'k': 'func', 'id': fid_, 'name': name, 'deco': deco, 'ann': {}, 'ret': None, 'nodoc': nodoc, 'emptydoc': emptydoc}
         kind = 'func' if outer is None else {None: 'method', 'classmethod': 'classmethod',
                                              'staticmethod': 'staticmethod', 'property': 'property'}[deco]
-        self.defs[fid_] = {'kind': kind, 'name': name, 'module': mod, 'outer': outer, 'nodoc': nodoc}
+        self.defs[fid_] = {'kind': kind, 'name': name, 'module': mod, 'outer': outer, 'nodoc': nodoc or emptydoc, 'emptydoc': emptydoc}
         if outer is not None:
             self.defs[outer]['members'][name] = fid_
             self.cns[outer][name] = ['d', fid_]
@@ -585,7 +603,9 @@ class _Gen:
         plan: List[str] = ['def'] * ndefs + ['imp'] * nimp
         rng.shuffle(plan)
         # imports gravitate to the top (like real code) but can be anywhere
-        if rng.chance(0.6):
+        if p.get('imports_last'):
+            plan.sort(key=lambda x: 0 if x == 'def' else 1)
+        elif rng.chance(0.6):
             plan.sort(key=lambda x: 0 if x == 'imp' else 1)
         for step in plan:
             if step == 'imp':
@@ -629,6 +649,10 @@ class _Gen:
                 n = rng.choice(cands)
                 self.alias_n += 1
                 an = f'A{self.alias_n}_{n}'
+                if p.get('alias_pool') and rng.chance(0.6):
+                    an = rng.choice(['ta', 'tb'])
+                    if an in ns:
+                        an = f'A{self.alias_n}_{n}'
                 ns[an] = list(ns[n])
                 self._routes[(mod, an)] = 'alias'
                 self._vias[(mod, an)] = self._vias.get((mod, n))
@@ -770,9 +794,9 @@ class _Gen:
             return
         zmod = order[0]
         zm = self.modules[zmod]
-        zm.setdefault('prelude', []).append('from zope.interface import Interface, implementer')
+        zm.setdefault('prelude', []).append('from zope.interface import Interface, implementer, classImplements')
         ifaces = []
-        for _ in range(rng.randint(1, 2)):
+        for _ in range(rng.randint(2, 3)):
             cid = self.fid()
             name = f'I{cid}'
             st = {'k': 'class', 'id': cid, 'name': name, 'body': [], 'deco': [], 'fields': [],
@@ -815,12 +839,21 @@ class _Gen:
             else:
                 cst = self.mk_class(rng, mod, {}, depth=1)
                 cid = cst['id']
-                cst['deco'] = [f'implementer({ref["expr"]})']
-                self.defs[cid]['implements'] = [ref['id']]
+                irefs = [ref] + [r for r in rng.shuffled(refs) if r['id'] != ref['id']][:rng.randint(0, 2)]
+                cst['deco'] = ['implementer(' + ', '.join(r['expr'] for r in irefs) + ')']
+                self.defs[cid]['implements'] = [r['id'] for r in irefs]
+                if rng.chance(0.4):
+                    # the same interfaces declared again after the class, in another order
+                    later = rng.shuffled(irefs)
+                    cst['_after'] = {'k': 'raw', 'text': f'classImplements({cst["name"]}, ' + ', '.join(r['expr'] for r in later) + ')'}
+                    if 'from zope.interface import classImplements' not in m.setdefault('prelude', []):
+                        m['prelude'].append('from zope.interface import classImplements')
                 m.setdefault('prelude', [])
                 if 'from zope.interface import implementer' not in m['prelude'] and mod != zmod:
                     m['prelude'].append('from zope.interface import implementer')
             m['body'].append(cst)
+            if cst.get('_after'):
+                m['body'].append(cst.pop('_after'))
             ns[cst['name']] = ['d', cid]
             self._routes[(mod, cst['name'])] = 'local'
             self.loc[cid] = [mod, cst['name']]
@@ -939,9 +972,11 @@ class _Gen:
             st['back'] = True
             body = self.modules[mod]['body']
             pos = rng.below(len(body) + 1)
+            if self.p.get('back_edge_bottom'):
+                pos = len(body)
             body.insert(pos, st)
             # maybe use it as a base of a new class placed after the import
-            if rng.chance(0.6):
+            if rng.chance(0.6) and not self.p.get('back_edge_bottom'):
                 cst = self.mk_class(rng, mod, ns)
                 # forbid inheritance cycles: drop bases that descend from nothing in this module is
                 # guaranteed because the new class is new; fine.
@@ -1052,7 +1087,9 @@ def render_stmt(st: Dict[str, Any], indent: str, out: List[str], in_class: bool 
             params.append(pn)
         ret = f' -> {_q(st["ret"])}' if st.get('ret') else ''
         out.append(f'{indent}def {st["name"]}({", ".join(params)}){ret}:\n')
-        if not st.get('nodoc'):
+        if st.get('emptydoc'):
+            out.append(f'{indent}    """"""\n')
+        elif not st.get('nodoc'):
             out.append(_doc(st['id'], st.get('docextra', ''), indent + '    '))
         for sa in st.get('selfattrs', []):
             out.append(f'{indent}    self.{sa["name"]} = "M{sa["id"]}M"\n')
